@@ -29,6 +29,10 @@ def atom_bounds(a):
         return (0, a[2][1])
     if k == 'trunc':
         return (0, 2 ** a[1] - 1)
+    if k == 'shr' and a[2][0] == 'int' and a[2][1] >= 0:
+        l, h = atom_bounds(a[1]) if a[1][0] != 'int' else (a[1][1], a[1][1])
+        if l is not None and l >= 0 and h is not None:
+            return (0, h >> a[2][1])
     if a in T.BOUNDS:
         return T.BOUNDS[a]
     ty = T.TYPES.get(a)
@@ -107,6 +111,23 @@ def _derived(conj):
             out.append(T.ge0(T.sub(T.mk_len(a[2][0]), T.I(1))))       # the empty text denotes no number / address
         if a[0] == 'call' and a[1] == 'is_prefix_of_const' and len(a[2]) == 2:
             out.append(T.ge0(T.sub(T.mk_len(a[2][1]), T.mk_len(a[2][0]))))
+    # bit slicing of an unsigned value:  x = 2^n * (x >> n) + (x & (2^n - 1))   and   x & ~(2^n - 1) = 2^n * (x >> n)
+    seen = set()
+    for a in conj:
+        for t in T.subterms(a):
+            if t[0] == 'shr' and t[2][0] == 'int' and t[1][0] != 'int' and t not in seen:
+                seen.add(t)
+                x, n = t[1], t[2][1]
+                l, h = atom_bounds(x)
+                if l is None or l < 0 or h is None or n <= 0 or (h + 1) & h:
+                    continue
+                lowmask = (1 << n) - 1
+                himask = h & ~lowmask
+                scaled = T.mul(T.I(1 << n), t) if hasattr(T, 'mul') else None
+                if scaled is None:
+                    continue
+                out.append(T.eq0(T.sub(T.bitop('band', x, T.I(himask)), scaled)))
+                out.append(T.eq0(T.sub(T.sub(x, scaled), T.bitop('band', x, T.I(lowmask)))))
     return [d for d in out if d != T.TRUE]
 
 
@@ -133,6 +154,9 @@ def _canon_atom(a):
     if a[0] == 'eq':
         for x, y in ((a[1], a[2]), (a[2], a[1])):
             if x[0] == 'bytes' and y[0] == 'slice' and y[2] == T.I(0) and y[3] == T.I(len(x[1])):
+                return ('call', 'starts_with', (y[1], x))
+            # x == c[0..len(x)]  (c constant): c starts with x
+            if y[0] == 'slice' and y[1][0] == 'bytes' and y[2] == T.I(0) and y[3] == T.mk_len(x) and x[0] != 'bytes':
                 return ('call', 'starts_with', (y[1], x))
     return a
 
@@ -270,6 +294,32 @@ def _sat_conj0(conj):
             if ok_case is None:
                 return False
             # several alternative-sets are checked independently (sound: each is necessary)
+    # x starts with the constant c1, x is no longer than c1, c2 starts with c1  ==>  x = c1 is a prefix of c2 (and x == c1)
+    for a in negs:
+        c2 = x = None
+        exact = False
+        if a[0] == 'call' and a[1] == 'starts_with' and a[2][0][0] == 'bytes' and a[2][1][0] != 'bytes':
+            c2, x = a[2][0][1], a[2][1]
+        elif a[0] == 'eq' and a[1][0] == 'bytes' and a[2][0] != 'bytes':
+            c2, x, exact = a[1][1], a[2], True
+        elif a[0] == 'eq' and a[2][0] == 'bytes' and a[1][0] != 'bytes':
+            c2, x, exact = a[2][1], a[1], True
+        if c2 is not None:
+            for b in pos:
+                if b[0] == 'call' and b[1] == 'starts_with' and b[2][0] == x and b[2][1][0] == 'bytes' and \
+                        (c2 == b[2][1][1] if exact else c2.startswith(b[2][1][1])):
+                    c0, m = T.to_lin(T.sub(T.mk_len(x), T.I(len(b[2][1][1]) + 1)))
+                    if not _fm_sat(ineqs + [(dict(m), c0)]):       # len(x) >= len(c1) + 1 impossible
+                        return False
+    # the constant c2 starts with x, x is at least as long as c1, c2 starts with c1  ==>  x starts with c1
+    for a in negs:
+        if a[0] == 'call' and a[1] == 'starts_with' and a[2][1][0] == 'bytes' and a[2][0][0] != 'bytes':
+            x, c1 = a[2][0], a[2][1][1]
+            for b in pos:
+                if b[0] == 'call' and b[1] == 'starts_with' and b[2][1] == x and b[2][0][0] == 'bytes' and b[2][0][1].startswith(c1):
+                    c0, m = T.to_lin(T.sub(T.I(len(c1) - 1), T.mk_len(x)))
+                    if not _fm_sat(ineqs + [(dict(m), c0)]):       # len(x) <= len(c1) - 1 impossible
+                        return False
     # disequalities: unsat if the remaining constraints force lin == 0
     for l in diseq:
         c0, m = T.to_lin(l)
